@@ -709,7 +709,8 @@ std::string one_line(std::string s) { for (auto &ch : s) if (ch == '\n') ch = ' 
     if (!replay && !d.out_path.empty() && d.cur) { d.fail_replay = d.out_path + ".fail.tape"; vf::write_file(d.fail_replay, d.cur, d.cur_len); }
     vf::write_stats("fail");
     fflush(NULL);
-    _exit(1);
+    syscall(SYS_exit_group, 1);   // not _exit(): the TSan interceptor of _exit needs the thread registry lock that the parked reporter holds
+    abort();
 }
 
 // Last line of defence against a wedged process (memory corrupted by a race can leave the sanitizer runtime or the engine's
@@ -733,7 +734,7 @@ void *last_resort_main(void *) {
 }
 // TSan's exit code option covers both "a report was printed" and "the runtime died"; known findings must not change the exit
 // status, a crash must.  So TSAN_OPTIONS keeps a non-zero exitcode and a normal exit is finished here with the engine's status.
-void exit_with_engine_status() { fflush(NULL); _exit(vf::drv().violations ? 1 : 0); }
+void exit_with_engine_status() { fflush(NULL); syscall(SYS_exit_group, vf::drv().violations ? 1 : 0); }
 
 // One execution of the program under one yield seed.  Throws vf::Fail (main thread) on an oracle violation.
 void run_once(const Program &p, int run_idx, uint64_t yield_seed, const std::string &desc0, RunStats &st, bool verbose, const vf::Ctx &ctx) {
